@@ -235,9 +235,51 @@ def run_file(res, judge, tracker, fp, name, data, path, rng, tier, full_lines=Tr
         tracker.fail_open = False
         attempt("missing-path", None, "str", lambda: str(path) + ".does-not-exist", flag)
         attempt("missing-path", None, "path", lambda: Path(str(path) + ".does-not-exist"), flag)
+        # other spellings of "a path": bytes, os.DirEntry, any os.PathLike.  Whether the library accepts them is its
+        # business; if it opens something for them it closes it again (descriptor monitor + ResourceWarning channel)
+        class _P:
+            def __init__(self, p_):
+                self.p_ = p_
+
+            def __fspath__(self):
+                return self.p_
+        attempt("none", None, "bytes-path", lambda: os.fsencode(str(path)), flag)
+        attempt("none", None, "pathlike", lambda: _P(str(path)), flag)
+        def _entry():
+            with os.scandir(os.path.dirname(str(path))) as it:      # (the harness closes its own iterator)
+                return next(e for e in it if e.name == os.path.basename(str(path)))
+        attempt("none", None, "direntry", _entry, flag)
+        gc.collect()
         # a path that can be opened at the OS level but not read as a file
         attempt("directory-path", None, "str", lambda: os.path.dirname(str(path)), flag)
         attempt("directory-path", None, "path", lambda: Path(os.path.dirname(str(path))), flag)
+
+    # ---------------- loads made while the CALLER holds the setting through the library's own context manager: inside the
+    # block the setting is the block's value before and after every load, and the caller's value is back after the block
+    from rv.errors import override_raise_controller_value_errors as _override
+    for outer_flag in (True, False):
+        for block_flag in (True, False):
+            for kind, mk in (("good", lambda: BytesIO(data)), ("truncated", lambda: BytesIO(data[:max(8, len(data) // 2)])), ("path", lambda: Path(path))):
+                errors.RAISE_CONTROLLER_VALUE_ERRORS = outer_flag
+                case = {"file": name, "fault": "held-override:" + kind, "outer_flag": outer_flag, "block_flag": block_flag}
+                judge.case = case
+                res.case((name, "held-override", kind, outer_flag, block_flag))
+                res.count("loads")
+                res.count("loads_inside_caller_held_override")
+                inside_after = None
+                with _override(block_flag):
+                    try:
+                        read(mk())
+                    except Exception:
+                        pass
+                    inside_after = errors.RAISE_CONTROLLER_VALUE_ERRORS
+                after_block = errors.RAISE_CONTROLLER_VALUE_ERRORS
+                errors.RAISE_CONTROLLER_VALUE_ERRORS = True
+                tracker.take()
+                if inside_after is not block_flag:
+                    res.violation("C18:strictness:inside-caller-block", f"inside `with override_raise_controller_value_errors({block_flag})` the setting is {inside_after!r} after a load ({kind}); case {case}", case)
+                elif after_block is not outer_flag:
+                    res.violation("C18:strictness:after-caller-block", f"after the caller's block the setting is {after_block!r}, it was {outer_flag!r} before; case {case}", case)
 
     # ---------------- I/O faults at every call index (BytesIO source), sampled for path sources
     probe = faults.FaultyBytesIO(data)
